@@ -54,6 +54,11 @@ def run(tier):
                 check.violation({"class": f["c"], "kind": f.get("kind"), "side": f.get("side"), "observed": f.get("observed"),
                                  "parent": f.get("parent"), "family": t["ver"][0]},
                                 {"src": t["src"], "ver": t["ver"], "fail": f})
+    # positions of an earlier tree survive later parses
+    for t, r in progs.retain_results(check, wp, inputs.programs(check, tier), core.seed() + 5, 150 if tier == "quick" else 2000):
+        if r.get("changed") == "tree-of-an-earlier-parse-changed" and r.get("part") == "positions":
+            check.violation({"class": "positions-of-an-earlier-tree-changed", "kind": None, "family": t["ver"][0]},
+                            {"task": {"src": t["src"], "ver": t["ver"], "others": len(t["others"])}, "observed": r})
     check.cov["error_free_trees_checked"] = ntrees
     check.cov["traces_validated_against_impl"] = check.cov["evaluations"]
     check.assumptions += ["span rule with the four documented conventions (vf/syntax.py _span, analyze.go checkSpans)",
